@@ -16,7 +16,7 @@ NEGS = {"NEG_builder_TokenPerCall.cfg": ["B_TokensArePositions", "C01_OwnListene
         "NEG_builder_ServeWhilePending.cfg": ["C07_NoCallWhilePending"]}
 
 
-def script(rng, lay, with_die=True, both=False):
+def script(rng, lay, with_die=True, both=False, hold=False):
     """events for a running layout: a client on every socket; for some calls a readiness failure followed by a client
     on every socket; the death of a worker followed by a client on every socket (twice: both workers answer)"""
     n = lay["nsockets"]
@@ -48,7 +48,7 @@ def script(rng, lay, with_die=True, both=False):
         ev.append({"k": "unpend", "c": c})
         ev += [{"k": "conn", "s": p} for p in order[:2]]
     if with_die:
-        ev.append({"k": "die2" if both else "die", "s": rng.randint(1, n)})
+        ev.append({"k": "diehold" if hold else ("die2" if both else "die"), "s": rng.randint(1, n)})
         for _ in range(2):
             rng.shuffle(order)
             ev += [{"k": "conn", "s": p} for p in order]
@@ -136,8 +136,9 @@ def run(ctx, n_quick=36):
     scs = []
     for k, lay in enumerate(pick):
         running = lay["phase"] == "running"
-        scs.append({"name": "b%d" % k, "workers": 1 + (k % 2), "calls": lay["calls"],
-                    "events": script(ctx.rng, lay, with_die=(k % 3 != 2), both=(k % 4 == 1)) if running else []})
+        # the death: k % 4 = 0 an idle worker, 1 both workers, 2 / 3 a worker at its limit with a connection in progress
+        scs.append({"name": "b%d" % k, "workers": 1 + (k % 2), "calls": lay["calls"], "limit": 2 if k % 4 >= 2 else 0,
+                    "events": script(ctx.rng, lay, with_die=(k % 3 != 2), both=(k % 4 == 1), hold=(k % 4 >= 2)) if running else []})
     summ, runs, accepted, rejects = _validate(ctx, scs, "builder")
     confirmed = []
     for (ri, pos, pred) in rejects:
